@@ -163,6 +163,32 @@ def lowered_elements(term: str, lowered_locs: t.Iterable[str] = ()) -> bool:
     return False
 
 
+def iterates_nothing(term: str, facts: dict[str, bool]) -> bool:
+    """the term iterates no element on a path with these facts: an empty constant, a value the path knows to be falsy
+    (a falsy container is an empty one), or a view / copy / enumeration / mapping / filter of such a value."""
+    c = const_of(term)
+    if c is not _NOCONST:
+        return not c and c is not None and not isinstance(c, (bool, int, float))
+    if facts.get(term) is False:
+        return True
+    n = P(term)
+    if isinstance(n, (ast.ListComp, ast.SetComp, ast.GeneratorExp, ast.DictComp)):
+        return iterates_nothing(text(n.generators[0].iter), facts)
+    if isinstance(n, ast.Call):
+        d = dotted(n.func)
+        if d in ("map", "filter") and len(n.args) == 2:
+            return iterates_nothing(text(n.args[1]), facts)
+        if d == "zip" and n.args:
+            return any(iterates_nothing(text(x), facts) for x in n.args)
+        if d in ("list", "tuple", "set", "frozenset", "sorted", "iter", "reversed", "enumerate") and n.args:
+            return iterates_nothing(text(n.args[0]), facts)
+        if d == "range" and len(n.args) == 1 and isinstance(n.args[0], ast.Call) and dotted(n.args[0].func) == "len" and len(n.args[0].args) == 1:
+            return iterates_nothing(text(n.args[0].args[0]), facts)
+        if isinstance(n.func, ast.Attribute) and n.func.attr in ("items", "keys", "values", "copy") and not n.args:
+            return iterates_nothing(text(n.func.value), facts)
+    return False
+
+
 class Fn:
     """callable value: a package function / method, a closure (nested def / lambda) or a stub."""
 
@@ -531,6 +557,9 @@ class Exec:
             elif node.kind == "loop":
                 for itv, s in self.ev(a.iter, st, fr):
                     s = self._reads_in(itv, s, fr, a, "__iter__")
+                    if iterates_nothing(itv, s.facts):
+                        results.append(("F", s))  # the path knows the iterated value to be empty: the body does not run
+                        continue
                     el = f"__e{a.lineno}_{a.col_offset}__"
                     s = self.emit(s, ("iter", el, itv, a, fr.fi))
                     s_t = s.kill(lambda key, el=el: el in key)
